@@ -62,6 +62,19 @@ CLAIMED = {
         technique="TLA+ spec + TLC exhaustive interleavings, edge-cover replay into memoising/non-memoising twin objects",
         ref="5/C26",
     ),
+    "C22": dict(
+        level="model_checking",
+        text="NewtonHelper.tla models fsolve's Newton loop and the plain fixed-point helper as state machines over dyadic-exact problem "
+             "families (dimension, residual contraction factor incl. stagnation and divergence, tolerances, iteration budgets, Jacobian modes "
+             "callable/chord/LU/numerical) and states the contracts; TLC checks them for every problem and rejects the as-found helper. Every "
+             "behaviour is replayed into the real helpers and (success, nit, nfev, warned, x, fun) / (x, niter, raised) compared exactly; the "
+             "momentum helper and approx_fprime are driven over the spec's problem spaces and judged by the contract / exact derivative; "
+             "random smooth, ill-scaled and domain-leaving systems are judged on the contract clauses only.",
+        note="Exactness relies on dyadic data (every iterate representable). The random-system part (round-off floors, NaN residuals) is "
+             "sampling, not model checking. Maps are passed in pure, in-place and partially in-place style.",
+        technique="TLA+ spec + TLC exhaustive problem-space enumeration, exact replay into the implementation",
+        ref="5/C22",
+    ),
 }
 
 NOT_APPLICABLE = {
